@@ -17,6 +17,7 @@ THEOREMS = [
     "C15_preceded_blocked_group_empty",
     "C15_matched_iff_exists_preceded_by_outside_known",
     "C15_limit_bounds",
+    "C15_preceded_by_fix_correct",
 ]
 RULE = ("function level: columnar zones laid out like SequenceStreamMerger::batches_to_zones (1-3 zones per type incl. empty zones and "
         "zones without link / time column, link texts shared by many rows, by one side only, aliasing integers ('5','05','+5'), empty and "
@@ -35,6 +36,7 @@ ASSUMPTIONS = [
 ]
 TRUSTED = [
     "Coq 8.16.1 kernel + coqc; vm_compute for closed witnesses; no native_compute",
+    "translator tools/params/p60_sequence.py (which pointer the final else branch of match_preceded_by advances is read from the Rust text; the comparisons, pointer moves, u64 cast, group order and WHERE collapse rules the model hard-codes are checked to be still present)",
     "extraction: ExtrOcamlBasic only; ocaml/driver.ml, conv.ml, p_seq.ml (parsing/printing)",
     "correspondence harness /verif/harness (vharn fn seq_match; vharn life for the engine-level cases through tools/engine.py) built against /repo with --cfg sneldb_verif",
     "python oracle: brute-force enumeration of all (a, b) pairs per the property text, independent of model and implementation",
